@@ -150,6 +150,7 @@ def dec_intelhex(text):
     if lines[-1] != ":00000001FF":
         raise DecodeError("missing EOF record")
     recs = []
+    upper = 0          # set by Extended Linear Address records (type 04), by the format's own rules
     for l in lines[:-1]:
         if not re.fullmatch(r":([0-9A-F]{2})+", l):
             raise DecodeError("bad record %r" % l)
@@ -157,7 +158,12 @@ def dec_intelhex(text):
         if sum(raw) % 256 != 0:
             raise DecodeError("bad checksum %r" % l)
         n, addr, typ = raw[0], raw[1] * 256 + raw[2], raw[3]
+        if typ == 4:
+            if n != 2 or addr != 0 or len(raw) != 7:
+                raise DecodeError("bad extended address record %r" % l)
+            upper = raw[4] * 256 + raw[5]
+            continue
         if typ != 0 or len(raw) != n + 5 or n == 0 or n > 32:
             raise DecodeError("bad record layout %r" % l)
-        recs.append((addr, list(raw[4:4 + n])))
+        recs.append((upper * 65536 + addr, list(raw[4:4 + n])))
     return recs
